@@ -453,6 +453,8 @@ func C11() *kit.Spec {
 			}
 			// re-run the sender with probes on
 			build11(tr, probe)
+			c.Distinct("symbol_sizes", kit.Hash64([]byte(fmt.Sprint(j.size))))
+			c.Distinct("data_word_counts(size,words)", kit.Hash64([]byte(fmt.Sprint(j.size, s.DataWords))))
 			ws := az.WordSize(s.Layers)
 			t := (len(s.Words) - s.DataWords) / 2
 			if j.kind == "sweep" {
